@@ -26,17 +26,17 @@ func init() {
 	registerProp(&Property{
 		ID: "C03", Kind: "necessary structural clauses (band clause sufficient with AFF-5)",
 		Tech:  "symbolic affine execution of the Y assignment, sibling-agreement on positioners, ownership table, reversal-guard dominance, running-extremum lint",
-		Rules: []string{"AFF-5", "EFF-3", "OWN-1", "PAIR-2", "EFF-1", "EFF-2", "ITER-1", "ORD-5", "ACYC-1", "AGG-1", "AFF-8", "ORD-4", "BAL-1", "DISP-1"},
+		Rules: []string{"AFF-5", "EFF-3", "OWN-1", "PAIR-2", "EFF-1", "EFF-2", "ITER-1", "ORD-5", "ACYC-1", "AGG-1", "AFF-8", "ORD-4", "BAL-1", "DISP-1", "BAL-2"},
 		Explanation: "AFF-5 (all nodes of a layer get one Y; the next band starts layer.H + LayerSpacing lower) and EFF-3 (every positioner makes layer.H the max node height) give the band clause for every input. OWN-1: Layer only changes in phase 2, so bands are the layering; PAIR-2 + EFF-1 + OWN-1: ArrowHeadStart == IsReversed, toggled only by Reverse; " +
-			"EFF-2 + ITER-1 the un-reverse pass visits every edge of g.Edges and flips exactly the flagged ones (a pass that iterates a list Reverse removes from skips edges: flagged but still downward); ORD-5 acyclic inputs are never reversed; AGG-1/AFF-8 longest-path layers are computed from the final maximum; ORD-4 layers stay >= 0; BAL-1 the vertical balancer moves a node only inside the window [max over in-edges of From.Layer + Delta, min over out-edges of To.Layer - Delta], computed from the current layers inside the moving loop (so no edge becomes flat or upward). DISP-1's exclusivity clause and EFF-3's every-path clause: the band heights are recorded on every path of every positioner (seeded change C03g returned from a single-column fast path before the loop that records them). Not decided: feasibility (span >= 1) of network simplex through tree construction and pivots, and of the horizontal balancer used by the NetworkSimplex positioner.",
+			"EFF-2 + ITER-1 the un-reverse pass visits every edge of g.Edges and flips exactly the flagged ones (a pass that iterates a list Reverse removes from skips edges: flagged but still downward); ORD-5 acyclic inputs are never reversed; AGG-1/AFF-8 longest-path layers are computed from the final maximum; ORD-4 layers stay >= 0; BAL-1 the vertical balancer moves a node only inside the window [max over in-edges of From.Layer + Delta, min over out-edges of To.Layer - Delta], computed from the current layers inside the moving loop (so no edge becomes flat or upward). DISP-1's exclusivity clause and EFF-3's every-path clause: the band heights are recorded on every path of every positioner (seeded change C03g returned from a single-column fast path before the loop that records them). BAL-2 (contradiction rule on the horizontal balancer): where the balancer chooses between shifting the subtree at one end of a tree edge and the subtree at its other end, the two alternatives carry opposite signs (seeded changes C13d/C04d passed the same signed amount for both ends). Not decided: feasibility (span >= 1) of network simplex through tree construction and pivots, and of the horizontal balancer used by the NetworkSimplex positioner.",
 		Assumptions: []string{"floating-point sums are exact for the band clause up to rounding"},
 	})
 	registerProp(&Property{
 		ID: "C04", Kind: "necessary structural clauses (VAlign/PackRight sufficient)",
 		Tech:  "symbolic affine execution (recurrences of VAlign/PackRight, separation dominance of the NS positioner, Y assignment, component shift), ownership table",
-		Rules: []string{"AFF-4", "AFF-7", "FLOW-1", "AFF-5", "EFF-3", "OWN-1", "ORD-4", "PROG-1", "WIDTH-1", "OPTS-1"},
+		Rules: []string{"AFF-4", "AFF-7", "FLOW-1", "AFF-5", "EFF-3", "OWN-1", "ORD-4", "PROG-1", "WIDTH-1", "OPTS-1", "BAL-2"},
 		Explanation: "AFF-4: VAlign and PackRight place neighbours exactly W + NodeSpacing apart, so no overlap and >= spacing for all widths >= 0; AFF-7: the NetworkSimplex positioner's separation constraint dominates W_left + spacing; FLOW-1 (with AFF-6): the next component starts at the rightmost edge + spacing; " +
-			"AFF-5/EFF-3: vertical disjointness of bands; OWN-1: X/Y only from phase 4; ORD-4: X = auxiliary layer >= 0; PROG-1: SinkColoring's overlap removal repeats only under a strict overlap test, moves the node to at least the compared bound, and compares with exactly the position it enforces (left neighbour + block width + spacing), so the fix-point implies the separation; WIDTH-1: a block's width is the maximum of its members' widths, so every node fits the slot reserved for its block. Not decided: that SinkColoring's placeBlock fix-point is reached (an upper bound on the coordinates), finiteness, the integer rounding of the auxiliary graph, that the last node of a layer is the rightmost.",
+			"AFF-5/EFF-3: vertical disjointness of bands; OWN-1: X/Y only from phase 4; ORD-4: X = auxiliary layer >= 0; PROG-1: SinkColoring's overlap removal repeats only under a strict overlap test, moves the node to at least the compared bound, and compares with exactly the position it enforces (left neighbour + block width + spacing), so the fix-point implies the separation; WIDTH-1: a block's width is the maximum of its members' widths, so every node fits the slot reserved for its block. BAL-2 (contradiction rule on the horizontal balancer): where the balancer chooses between shifting the subtree at one end of a tree edge and the subtree at its other end, the two alternatives carry opposite signs (seeded changes C13d/C04d passed the same signed amount for both ends). Not decided: that SinkColoring's placeBlock fix-point is reached (an upper bound on the coordinates), finiteness, the integer rounding of the auxiliary graph, that the last node of a layer is the rightmost.",
 		Assumptions: []string{"sizes and spacings are finite and non-negative (property hypothesis)"},
 	})
 	registerProp(&Property{
@@ -85,9 +85,9 @@ func init() {
 	registerProp(&Property{
 		ID: "C10", Kind: "necessary structural clauses",
 		Tech:  "SSA dominance lint on cut values, normaliser-order rule, loop-cap recogniser, balancing-window recogniser, ownership table",
-		Rules: []string{"RECOMP-1", "OPT-1", "TIGHT-1", "ORD-4", "CAP-1", "BAL-1", "OWN-1", "DISP-1", "OPTS-1", "ORD-6"},
+		Rules: []string{"RECOMP-1", "OPT-1", "TIGHT-1", "ORD-4", "CAP-1", "BAL-1", "OWN-1", "DISP-1", "OPTS-1", "ORD-6", "BAL-2"},
 		Explanation: "RECOMP-1: cut values are a function of the current tree only (no read of a stale value); TIGHT-1: an edge enters the spanning tree only under slack == 0 or after the layers were shifted by its slack (the basis stays feasible); OPT-1: the pivot loop can stop (budget aside) only when a complete scan of the edge list finds no tree edge with negative cut value - the optimality criterion - and the enter edge is a strict minimum-slack candidate of a complete scan; ORD-4: the top band is 0 after balancing; CAP-1: the pivot loop honours the documented budget; OWN-1: Layer is not touched after phase 2; " +
-			"BAL-1: balancing moves only nodes whose move leaves total length unchanged (in-degree = out-degree) and only inside their feasible window. That the algorithm the caller selected is the one that runs: OPTS-1 (no other option stores an algorithm on the side) and ORD-6 (after the option loop nothing overwrites the options record - seeded change C14f let Layout replace the selected cycle breaker when another option was present). Not decided: optimality and feasibility of the pivot sequence; contiguity of bands.",
+			"BAL-1: balancing moves only nodes whose move leaves total length unchanged (in-degree = out-degree) and only inside their feasible window. That the algorithm the caller selected is the one that runs: OPTS-1 (no other option stores an algorithm on the side) and ORD-6 (after the option loop nothing overwrites the options record - seeded change C14f let Layout replace the selected cycle breaker when another option was present). BAL-2 (contradiction rule on the horizontal balancer): where the balancer chooses between shifting the subtree at one end of a tree edge and the subtree at its other end, the two alternatives carry opposite signs (seeded changes C13d/C04d passed the same signed amount for both ends). Not decided: optimality and feasibility of the pivot sequence; contiguity of bands.",
 		Assumptions: []string{"clauses are necessary, not sufficient"},
 	})
 	registerProp(&Property{
@@ -109,9 +109,9 @@ func init() {
 	registerProp(&Property{
 		ID: "C13", Kind: "necessary structural clauses (thin by design)",
 		Tech:  "phi-pairing analysis of the two seeded runs + ownership table",
-		Rules: []string{"BEST-1", "OWN-1", "ITER-1"},
+		Rules: []string{"BEST-1", "OWN-1", "ITER-1", "BAL-2"},
 		Explanation: "BEST-1 (the better of the two seeded runs wins, each run keeps the best order it ever saw - necessary, because for an out-tree only the top-seeded run starts at zero crossings), OWN-1 for order state, and ITER-1's work-list clause: the loop that splits long edges visits the remainders it appends, so after it every edge joins adjacent layers (crossing counting and the sweeps only see such edges; an unsplit remainder is drawn straight through the sub-trees it skips). " +
-			"Not decided: planarity of the depth-first seed order and single-layer spans of tree edges - graph-theoretic, not visible in code shape.",
+			"BAL-2 (contradiction rule on the horizontal balancer): where the balancer chooses between shifting the subtree at one end of a tree edge and the subtree at its other end, the two alternatives carry opposite signs (seeded changes C13d/C04d passed the same signed amount for both ends). Not decided: planarity of the depth-first seed order and single-layer spans of tree edges - graph-theoretic, not visible in code shape.",
 		Assumptions: []string{"thin: decides a necessary clause only"},
 	})
 	registerProp(&Property{
@@ -160,9 +160,10 @@ func init() {
 	registerProp(&Property{
 		ID: "C20", Core: []string{"AFF-9"}, Kind: "necessary structural clauses (joining, provenance of pieces)",
 		Tech:  "SSA value-identity on the recursive spline fitter and the emitting loop",
-		Rules: []string{"AFF-9", "CONT-1"},
+		Rules: []string{"AFF-9", "CONT-1", "ROOT-1"},
 		Explanation: "CONT-1 (provenance, a necessary clause of containment): the fitting attempt reports success only for the polygon it has just tested against the barriers (or the straight segment of a two-point path), and the recursive fitter returns only such polygons or concatenations of its own results. The joining clause: the two recursive FitSpline calls take path[:k+1] and path[k:] (shared split point) and pass the same tangent value as last/first tangent; a fitted piece's p0/p3 are path[0]/path[len-1]; execSplines emits each piece reversed while iterating the pieces backward. " +
-			"Not decided: termination of the fitter, that the containment test itself is exact (it rests on the polynomial root finder: numeric case analysis around epsilons), and the root finder.",
+			"ROOT-1 (one clause of the root finder the containment test rests on): the cubic solver shifts the roots of the depressed cubic back on every path that returns them. " +
+			"Not decided: termination of the fitter, that the containment test itself is exact (barrier orientation, epsilons), and the rest of the root finder (its case analysis and formulas).",
 		Assumptions: []string{"thin: decides the joining clause and the provenance of pieces only"},
 	})
 	registerProp(&Property{
